@@ -65,6 +65,25 @@ def confirm_hang(pid: str, case) -> bool:
                 os.unlink(p)
 
 
+def fresh_replay_signatures(pid: str, case) -> set:
+    """signatures of the unknown failures of one case replayed in a fresh interpreter (history-sensitive properties)"""
+    with tempfile.NamedTemporaryFile("w", suffix=".json", delete=False) as f:
+        json.dump([case], f)
+        inp = f.name
+    outp = inp + ".out"
+    try:
+        subprocess.run([sys.executable, "-m", "vf.worker", "replay", pid, inp, outp], timeout=300, stdout=subprocess.DEVNULL, stderr=subprocess.DEVNULL)
+        with open(outp) as f:
+            res = json.load(f)
+        return {x["signature"] for x in res[0]["failures"]}
+    except Exception:
+        return set()
+    finally:
+        for p in (inp, outp):
+            if os.path.exists(p):
+                os.unlink(p)
+
+
 def finish(mod, pid: str, rec: Recorder, shrink: bool = True):
     """confirm hangs, minimise one representative per bucket"""
     fields = getattr(mod, "SHRINK_FIELDS", ("src",))
@@ -81,6 +100,8 @@ def finish(mod, pid: str, rec: Recorder, shrink: bool = True):
             continue  # each probe would cost a timeout
 
         def still(c, sig=sig):
+            if getattr(mod, "FRESH_PROCESS_REPLAY", False):
+                return sig in fresh_replay_signatures(pid, c)
             r = Recorder(pid)
             mod.check(r, c)
             return sig in r.failures
@@ -90,7 +111,7 @@ def finish(mod, pid: str, rec: Recorder, shrink: bool = True):
             cands = getattr(mod, "candidates", None)
             if cands is not None:
                 # structured minimisation: greedy descent over property-specific smaller candidates
-                deadline = time.monotonic() + 20.0
+                deadline = time.monotonic() + (90.0 if getattr(mod, "FRESH_PROCESS_REPLAY", False) else 20.0)
                 progress = True
                 while progress and time.monotonic() < deadline:
                     progress = False
